@@ -1,6 +1,7 @@
 SPECIFICATION MCSpec
 CONSTANT L = 5
 CONSTANT Kind = "LR"
+CONSTANT LOBound = "asis"
 VIEW View
 INVARIANT Ok
 INVARIANT Inv
